@@ -35,11 +35,13 @@ struct ffd {
 	int behav, conn_done, so_error;
 	/* listener */
 	int backlog, pending;
-	int nrecv, nsend, nsenderr;
+	int nrecv, nsend, nsenderr, nenddeliv;
 };
 static struct ffd F[FK_NFD];
 static struct { int behav; const uint8_t * in; size_t inlen; int in_end; size_t hold; } CS[16];
 static int nsockets, nconnects, conn_order[16], attempt_fd[16];
+static long long attempt_start[16], attempt_closed[16]; static int attempt_pending_at_close[16];
+void (*fk_horizon_hook)(void) = NULL;
 static size_t amenu[250]; static int namenu;
 static size_t smenu[32]; static int nsmenu;
 static char errbuf[300]; static int haverr;
@@ -73,7 +75,7 @@ fk_reset(void)
 	int i;
 	for (i = 0; i < FK_NFD; i++) { UNTRACKED(free(F[i].out)); memset(&F[i], 0, sizeof(F[i])); }
 	memset(CS, 0, sizeof(CS));
-	for (i = 0; i < 16; i++) { CS[i].behav = FK_C_IMMEDIATE; conn_order[i] = -1; attempt_fd[i] = -1; }
+	for (i = 0; i < 16; i++) { CS[i].behav = FK_C_IMMEDIATE; conn_order[i] = -1; attempt_fd[i] = -1; attempt_start[i] = attempt_closed[i] = -1; attempt_pending_at_close[i] = 0; }
 	nsockets = nconnects = 0; haverr = 0; fk_now_us = 1000000; fk_npolls = 0;
 }
 
@@ -126,8 +128,12 @@ int fk_open_count(void){ int i, n = 0; for (i = 0; i < FK_NFD; i++) n += F[i].op
 int fk_nsockets(void){ return nsockets; }
 int fk_nconnects(void){ return nconnects; }
 int fk_connect_order(int k){ return (k >= 0 && k < 16) ? conn_order[k] : -1; }
+long long fk_attempt_start(int idx){ return (idx >= 0 && idx < 16) ? attempt_start[idx] : -1; }
+long long fk_attempt_closed(int idx){ return (idx >= 0 && idx < 16) ? attempt_closed[idx] : -1; }
+int fk_attempt_pending_at_close(int idx){ return (idx >= 0 && idx < 16) ? attempt_pending_at_close[idx] : 0; }
 int fk_fd_of_attempt(int idx){ return (idx >= 0 && idx < 16) ? attempt_fd[idx] : -1; }
 int fk_recv_calls(int fd){ struct ffd * f = getf(fd); return f ? f->nrecv : 0; }
+int fk_in_end_deliveries(int fd){ struct ffd * f = getf(fd); return f ? f->nenddeliv : 0; }
 int fk_send_errors(int fd){ struct ffd * f = getf(fd); return f ? f->nsenderr : 0; }
 int fk_send_broken(int fd){ struct ffd * f = getf(fd); return f ? f->broken : 0; }
 int fk_conn_established(int fd){ struct ffd * f = getf(fd); return f ? (f->conn_done && f->so_error == 0 && f->behav != FK_C_ASYNC_FAIL && f->behav != FK_C_REFUSED) : 0; }
@@ -232,7 +238,7 @@ poll(struct pollfd * fds, nfds_t n, int timeout)
 	nfds_t i; int cnt = 0;
 
 	if (fk_teardown_mode) { for (i = 0; i < n; i++) fds[i].revents = 0; return (0); }
-	if (++fk_npolls > fk_poll_horizon) mc_cut("poll horizon (livelock guard)");
+	if (++fk_npolls > fk_poll_horizon) { if (fk_horizon_hook) fk_horizon_hook(); mc_cut("poll horizon (livelock guard)"); }
 	mc_note("poll(n=%d, timeout=%d) t=%lld", (int)n, timeout, fk_now_us);
 	if (fk_pre_poll_hook) fk_pre_poll_hook(fds, (int)n, timeout);
 	for (i = 0; i < n; i++) {
@@ -250,7 +256,9 @@ poll(struct pollfd * fds, nfds_t n, int timeout)
 			if (f->kind == K_STREAM) { if (outbound_choice(f, fds[i].fd)) fds[i].revents |= POLLOUT; }
 			else if (f->kind == K_CONNECTING) {
 				if (!f->conn_done && f->behav != FK_C_SILENT) {
-					if (mc_choose(2, "connect-completes") == 0) {
+					int cc = mc_choose(timeout > 1 ? 3 : 2, "connect-completes");	/* 0 now, 1 not yet, 2 after half of this poll's timeout */
+					if (cc == 2) { fk_now_us += (long long)timeout * 500; mc_note("  (half of the timeout passes first)"); }
+					if (cc != 1) {
 						f->conn_done = 1;
 						f->so_error = (f->behav == FK_C_ASYNC_FAIL) ? ECONNREFUSED : 0;
 						mc_note("  fd %d: connection attempt finished (%s)", fds[i].fd, f->so_error ? "refused" : "connected");
@@ -290,7 +298,7 @@ recv(int fd, void * buf, size_t len, int flags)
 		return ((ssize_t)k);
 	}
 	if (f->end_arrived) {
-		f->end_delivered = 1;
+		f->end_delivered = 1; f->nenddeliv++;
 		if (f->in_end == FK_END_EOF) { mc_note("recv(fd %d, %zu) -> 0 (EOF)", fd, len); return (0); }
 		mc_note("recv(fd %d, %zu) -> ECONNRESET", fd, len); errno = ECONNRESET; return (-1);
 	}
@@ -327,7 +335,7 @@ socket(int domain, int type, int protocol)
 	if (CS[idx].behav == FK_C_SOCKFAIL) { mc_note("socket() #%d -> EMFILE", idx); errno = EMFILE; return (-1); }
 	fd = newfd(K_CONNECTING);
 	if (fd < 0) { errno = EMFILE; return (-1); }
-	f = getf(fd); f->behav = CS[idx].behav; f->attempt = idx; attempt_fd[idx] = fd;
+	f = getf(fd); f->behav = CS[idx].behav; f->attempt = idx; attempt_fd[idx] = fd; attempt_start[idx] = fk_now_us;
 	f->in = CS[idx].in; f->inlen = CS[idx].inlen; f->in_end = CS[idx].in_end; f->hold = CS[idx].hold;
 	mc_note("socket() #%d -> fd %d", idx, fd);
 	return (fd);
@@ -342,7 +350,7 @@ connect(int fd, const struct sockaddr * name, socklen_t namelen)
 	if (nconnects < 16) conn_order[nconnects] = tag;
 	nconnects++;
 	switch (f->behav) {
-	case FK_C_REFUSED: mc_note("connect(fd %d, addr %d) -> ECONNREFUSED", fd, tag); errno = ECONNREFUSED; return (-1);
+	case FK_C_REFUSED: f->conn_done = 1; f->so_error = ECONNREFUSED; mc_note("connect(fd %d, addr %d) -> ECONNREFUSED", fd, tag); errno = ECONNREFUSED; return (-1);
 	case FK_C_IMMEDIATE: f->conn_done = 1; f->so_error = 0; mc_note("connect(fd %d, addr %d) -> 0", fd, tag); return (0);
 	case FK_C_EINTR_OK: mc_note("connect(fd %d, addr %d) -> EINTR", fd, tag); errno = EINTR; return (-1);
 	default: mc_note("connect(fd %d, addr %d) -> EINPROGRESS", fd, tag); errno = EINPROGRESS; return (-1);
@@ -396,6 +404,7 @@ close(int fd)
 	if (f == NULL) return ((int)syscall(SYS_close, fd));
 	if (!f->open) { misuse("close of descriptor %d which is not open (double close)", fd); errno = EBADF; return (-1); }
 	f->open = 0; f->closed_once = 1;
+	if (f->attempt >= 0 && f->attempt < 16) { attempt_closed[f->attempt] = fk_now_us; attempt_pending_at_close[f->attempt] = (f->kind == K_CONNECTING && !f->conn_done); }
 	mc_note("close(fd %d)", fd);
 	return (0);
 }
